@@ -239,6 +239,19 @@ def banded_obligations(rep, fns, src):
                 raise Outside("constructor does not end in expm(generator)")
             G = G[1]
             obs.append((fq, f"ensures:generator-has-offsets-{sorted(offs)}-only", z3.BoolVal(set(G.bands) <= offs), []))
+            # textbook generator entries (fixes the sign / phase convention): D: alpha a^dagger - conj(alpha) a ; S: (conj(zeta) a^2 - zeta a^dagger^2) / 2
+            if name == "displacement_operator":
+                lr, li = G.entry(i, -1)     # entry (i, i-1) = alpha sqrt(i)
+                obs.append((fq, "ensures:generator-lower-band-is-alpha*sqrt(n)", z3.And(lr == ar * O.sq(i), li == ai * O.sq(i)), [d >= 2, 1 <= i, i < d]))
+                ur, ui = G.entry(i, 1)      # entry (i, i+1) = -conj(alpha) sqrt(i+1)
+                obs.append((fq, "ensures:generator-upper-band-is-minus-conj(alpha)*sqrt(n+1)", z3.And(ur == -ar * O.sq(i + 1), ui == ai * O.sq(i + 1)), [d >= 2, 0 <= i, i < d - 1]))
+            else:
+                lr, li = G.entry(i, -2)     # entry (i, i-2) = -zeta/2 sqrt(i-1) sqrt(i)
+                obs.append((fq, "ensures:generator-lower-band-is-minus-zeta/2*sqrt((n-1)n)", z3.And(lr == -0.5 * ar * O.sq(i - 1) * O.sq(i), li == -0.5 * ai * O.sq(i - 1) * O.sq(i)),
+                            [d >= 3, 2 <= i, i < d]))
+                ur, ui = G.entry(i, 2)      # entry (i, i+2) = conj(zeta)/2 sqrt(i+1) sqrt(i+2)
+                obs.append((fq, "ensures:generator-upper-band-is-conj(zeta)/2*sqrt((n+1)(n+2))", z3.And(ur == 0.5 * ar * O.sq(i + 1) * O.sq(i + 2), ui == -0.5 * ai * O.sq(i + 1) * O.sq(i + 2)),
+                            [d >= 3, 0 <= i, i < d - 2]))
             GH = G.conj().T()
             for o_ in sorted(offs):
                 gr, gi = G.entry(i, o_)
@@ -398,6 +411,8 @@ def run(rep, tier):
     else:
         numeric_bounded(rep, tier)
     dispatch_obligations(rep)
+    from vf import lemmas
+    lemmas.lemma_obligations(rep, ["exp_commutes_of_generator_commutes"])
     kernels.run_scope(rep, [OPS])
     rep.obligation_samples.append({"examples": ["rx: additive-R(a)R(b)=R(a+b)[0,1]", "number-is-diag(0..d-1) for symbolic d", "[a,a_dagger]=1-below-the-cutoff"]})
     rep.assume("machine arithmetic treated as mathematical (float / complex128 as real / complex numbers)",
